@@ -167,6 +167,10 @@ class Ctx:
     def require(self, cond, msg):
         """Vacuity / sanity guard: failing it is a harness error, not a pass and not a violation."""
         if not cond:
+            if self.acc.viol_count:
+                # exploration stopped early because violations were found: report those, not the guard
+                self.notes.append(f"guard not met (violations found first): {msg}")
+                return
             raise HarnessError(f"{self.prop}: guard failed: {msg}")
 
 
